@@ -79,26 +79,26 @@ theorem diamond {s a b : Sess} (hS : SInv s) (hK : NoRace s) (ha : sendStepP s =
         simp only [sendStepP, hs] at ha
         split at ha
         · split at ha
-          · cases ha; apply join1; clear h7 h8 h9 hK hS'; simp_all [sendStepP, recvStepP]
+          · cases ha; apply join1; clear h7 h8 h9 hK hS'; simp_all [sendStepP, recvStepP, partialWrite]
           · cases ha
-        · split at ha <;> (cases ha; apply join1; clear h7 h8 h9 hK hS'; simp_all [sendStepP, recvStepP])
+        · split at ha <;> (cases ha; apply join1; clear h7 h8 h9 hK hS'; simp_all [sendStepP, recvStepP, partialWrite])
       | writing x =>
         simp only [sendStepP, hs] at ha
         split at ha
-        · cases ha; apply join1; clear h7 h8 h9 hK hS'; simp_all [sendStepP, recvStepP]
+        · cases ha; apply join1; clear h7 h8 h9 hK hS'; simp_all [sendStepP, recvStepP, partialWrite]
         · split at ha
-          · cases ha; apply join1; clear h7 h8 h9 hK hS'; simp_all [sendStepP, recvStepP]
+          · cases ha; apply join1; clear h7 h8 h9 hK hS'; simp_all [sendStepP, recvStepP, partialWrite]
           · cases ha
       | quitting st =>
         cases st <;> simp only [sendStepP, hs] at ha
         · split at ha
-          · cases ha; apply join1; clear h7 h8 h9 hK hS'; simp_all [sendStepP, recvStepP]
+          · cases ha; apply join1; clear h7 h8 h9 hK hS'; simp_all [sendStepP, recvStepP, partialWrite]
           · split at ha
             · cases ha
-            · cases ha; apply join1; clear h7 h8 h9 hK hS'; simp_all [sendStepP, recvStepP]
-        · cases ha; apply join1; clear h7 h8 h9 hK hS'; simp_all [sendStepP, recvStepP]
-        · cases ha; apply join1; clear h7 h8 h9 hK hS'; simp_all [sendStepP, recvStepP]
-        · cases ha; apply join1; clear h7 h8 h9 hK hS'; simp_all [sendStepP, recvStepP]
+            · cases ha; apply join1; clear h7 h8 h9 hK hS'; simp_all [sendStepP, recvStepP, partialWrite]
+        · cases ha; apply join1; clear h7 h8 h9 hK hS'; simp_all [sendStepP, recvStepP, partialWrite]
+        · cases ha; apply join1; clear h7 h8 h9 hK hS'; simp_all [sendStepP, recvStepP, partialWrite]
+        · cases ha; apply join1; clear h7 h8 h9 hK hS'; simp_all [sendStepP, recvStepP, partialWrite]
         · cases ha
     · cases hb
   | quitting p st =>
@@ -117,20 +117,20 @@ theorem diamond {s a b : Sess} (hS : SInv s) (hK : NoRace s) (ha : sendStepP s =
           simp only [sendStepP, hs] at ha
           split at ha
           · split at ha
-            · cases ha; apply join1; clear h7 h8 h9 hK hS'; simp_all [sendStepP, recvStepP]
+            · cases ha; apply join1; clear h7 h8 h9 hK hS'; simp_all [sendStepP, recvStepP, partialWrite]
             · cases ha
-          · split at ha <;> (cases ha; apply join1; clear h7 h8 h9 hK hS'; simp_all [sendStepP, recvStepP])
+          · split at ha <;> (cases ha; apply join1; clear h7 h8 h9 hK hS'; simp_all [sendStepP, recvStepP, partialWrite])
         | writing x =>
           simp only [sendStepP, hs] at ha
           split at ha
-          · cases ha; apply join1; clear h7 h8 h9 hK hS'; simp_all [sendStepP, recvStepP]
+          · cases ha; apply join1; clear h7 h8 h9 hK hS'; simp_all [sendStepP, recvStepP, partialWrite]
           · exfalso
             have := (h6 hd).2.2.2.1
             simp_all
         | quitting st' =>
           cases st' <;> simp only [sendStepP, hs] at ha
           · simp only [hd, if_true] at ha
-            cases ha; apply join1; clear h7 h8 h9 hK hS'; simp_all [sendStepP, recvStepP]
+            cases ha; apply join1; clear h7 h8 h9 hK hS'; simp_all [sendStepP, recvStepP, partialWrite]
           all_goals (exfalso; have := (h8 _ hs (by simp)).2.1; simp [hd] at this)
       · rename_i hd
         split at hb
@@ -147,14 +147,14 @@ theorem diamond {s a b : Sess} (hS : SInv s) (hK : NoRace s) (ha : sendStepP s =
             simp only [sendStepP, hs] at ha
             split at ha
             · split at ha
-              · cases ha; apply join1; clear h7 h8 h9 hK hS'; simp_all [sendStepP, recvStepP]
+              · cases ha; apply join1; clear h7 h8 h9 hK hS'; simp_all [sendStepP, recvStepP, partialWrite]
               · cases ha
-            · split at ha <;> (cases ha; apply join1; clear h7 h8 h9 hK hS'; simp_all [sendStepP, recvStepP])
+            · split at ha <;> (cases ha; apply join1; clear h7 h8 h9 hK hS'; simp_all [sendStepP, recvStepP, partialWrite])
           | writing x =>
             cases hb
             simp only [sendStepP, hs] at ha
             split at ha
-            · cases ha; apply join1; clear h7 h8 h9 hK hS'; simp_all [sendStepP, recvStepP]
+            · cases ha; apply join1; clear h7 h8 h9 hK hS'; simp_all [sendStepP, recvStepP, partialWrite]
             · split at ha
               · exfalso
                 rcases hK' c0 with hbl | ⟨h, _⟩ | ⟨st, h⟩ | h
@@ -178,15 +178,15 @@ theorem diamond {s a b : Sess} (hS : SInv s) (hK : NoRace s) (ha : sendStepP s =
         simp only [sendStepP, hs] at ha
         split at ha
         · split at ha
-          · cases ha; apply join1; clear h7 h8 h9 hK hS'; simp_all [sendStepP, recvStepP]
+          · cases ha; apply join1; clear h7 h8 h9 hK hS'; simp_all [sendStepP, recvStepP, partialWrite]
           · cases ha
-        · split at ha <;> (cases ha; apply join1; clear h7 h8 h9 hK hS'; simp_all [sendStepP, recvStepP])
+        · split at ha <;> (cases ha; apply join1; clear h7 h8 h9 hK hS'; simp_all [sendStepP, recvStepP, partialWrite])
       | writing x =>
         simp only [sendStepP, hs] at ha
         split at ha
-        · cases ha; apply join1; clear h7 h8 h9 hK hS'; simp_all [sendStepP, recvStepP]
+        · cases ha; apply join1; clear h7 h8 h9 hK hS'; simp_all [sendStepP, recvStepP, partialWrite]
         · split at ha
-          · cases ha; apply join1; clear h7 h8 h9 hK hS'; simp_all [sendStepP, recvStepP]
+          · cases ha; apply join1; clear h7 h8 h9 hK hS'; simp_all [sendStepP, recvStepP, partialWrite]
           · cases ha
       | quitting st' =>
         have := o4 st' hs; subst this
@@ -201,15 +201,15 @@ theorem diamond {s a b : Sess} (hS : SInv s) (hK : NoRace s) (ha : sendStepP s =
         simp only [sendStepP, hs] at ha
         split at ha
         · split at ha
-          · cases ha; apply join1; clear h7 h8 h9 hK hS'; simp_all [sendStepP, recvStepP]
+          · cases ha; apply join1; clear h7 h8 h9 hK hS'; simp_all [sendStepP, recvStepP, partialWrite]
           · cases ha
-        · split at ha <;> (cases ha; apply join1; clear h7 h8 h9 hK hS'; simp_all [sendStepP, recvStepP])
+        · split at ha <;> (cases ha; apply join1; clear h7 h8 h9 hK hS'; simp_all [sendStepP, recvStepP, partialWrite])
       | writing x =>
         simp only [sendStepP, hs] at ha
         split at ha
-        · cases ha; apply join1; clear h7 h8 h9 hK hS'; simp_all [sendStepP, recvStepP]
+        · cases ha; apply join1; clear h7 h8 h9 hK hS'; simp_all [sendStepP, recvStepP, partialWrite]
         · split at ha
-          · cases ha; apply join1; clear h7 h8 h9 hK hS'; simp_all [sendStepP, recvStepP]
+          · cases ha; apply join1; clear h7 h8 h9 hK hS'; simp_all [sendStepP, recvStepP, partialWrite]
           · cases ha
       | quitting st' =>
         have := o4 st' hs; subst this
@@ -224,13 +224,13 @@ theorem diamond {s a b : Sess} (hS : SInv s) (hK : NoRace s) (ha : sendStepP s =
         simp only [sendStepP, hs] at ha
         split at ha
         · split at ha
-          · cases ha; apply join1; clear h7 h8 h9 hK hS'; simp_all [sendStepP, recvStepP]
+          · cases ha; apply join1; clear h7 h8 h9 hK hS'; simp_all [sendStepP, recvStepP, partialWrite]
           · first | (cases ha; done) | (exfalso; simp_all)
-        · split at ha <;> (cases ha; apply join1; clear h7 h8 h9 hK hS'; simp_all [sendStepP, recvStepP])
+        · split at ha <;> (cases ha; apply join1; clear h7 h8 h9 hK hS'; simp_all [sendStepP, recvStepP, partialWrite])
       | writing x =>
         simp only [sendStepP, hs] at ha
         split at ha
-        · cases ha; apply join1; clear h7 h8 h9 hK hS'; simp_all [sendStepP, recvStepP]
+        · cases ha; apply join1; clear h7 h8 h9 hK hS'; simp_all [sendStepP, recvStepP, partialWrite]
         · split at ha
           · exfalso
             rcases hK' c0 with hbl | ⟨h, _⟩ | ⟨st, h⟩ | h
